@@ -48,6 +48,7 @@ class ModelDB:
         self.lex = {}          # spec -> Installed, in installation order
         self.seq = 0
         self.ilis = {}         # id -> [status, definition]
+        self.ili_meta = {}     # id -> metadata of the ILIDefinition that created a presupposed ILI
         self._tables = None
         # removed extensions whose base stayed installed: only used by the 'tags-unowned' quirk (their
         # tags/pronunciations on base forms have no owner and survive the removal - known finding)
@@ -71,6 +72,7 @@ class ModelDB:
             trial = copy.copy(self)
             trial.lex = dict(self.lex)
             trial.ilis = {k_: list(v) for k_, v in self.ilis.items()}
+            trial.ili_meta = dict(self.ili_meta)
             trial.ghosts = list(self.ghosts)
             trial.add_resource(resource, lenient=lenient)
             if set(trial.lex) == set(real_specs) or lenient:
@@ -102,6 +104,7 @@ class ModelDB:
                         if ili not in self.ilis:
                             d = ss.get('ili_definition')
                             self.ilis[ili] = ['presupposed', d['text'] if d else None]
+                            self.ili_meta[ili] = (d.get('meta') or None) if d else None
         self._tables = None
         return plan
 
@@ -539,6 +542,8 @@ class View:
         }
         if ss['ili'] == 'in':
             d['ili_meta'] = (ss['ili_def'] or {}).get('meta') or None
+        elif ss['ili'] and ss['ili'] in self.db.ilis:
+            d['ili_inv_meta'] = self.db.ili_meta.get(ss['ili'])
         if any(self.sense_word(s) == ERR for s in flat):
             d['words'] = ERR
             d['lemmas'] = ERR
